@@ -127,6 +127,12 @@ Section Reversed.
   Qed.
   Variable len : S -> L.
   Hypothesis rev_len : forall s, len (reversed s) = len s.
+  (* the list of segment lengths of the reversed path is the reversed list *)
+  Theorem path_reversed_lens (segs : list S) :
+    map len (path_reversed reversed segs) = path_reversed (fun x => x) (map len segs).
+  Proof.
+    unfold path_reversed. rewrite map_rev, !map_map. f_equal. apply map_ext. intros s. apply rev_len.
+  Qed.
   Theorem path_reversed_length (segs : list S) :
     lsum (map len (path_reversed reversed segs)) = lsum (map len segs).
   Proof.
@@ -180,6 +186,13 @@ Section Chain.
   Lemma chained_slice l a b : chained l -> chained (slice l a b).
   Proof. intros H. unfold slice. apply chained_firstn, chained_skipn, H. Qed.
 
+  Lemma chained_app_l l1 l2 : chained (l1 ++ l2) -> chained l1.
+  Proof.
+    induction l1 as [|a l1 IH]; intros H; [exact I|].
+    destruct l1 as [|b l1]; [exact I|].
+    change ((a :: b :: l1) ++ l2) with (a :: b :: (l1 ++ l2)) in H. destruct H as [J H].
+    split; [exact J|]. apply IH. exact H.
+  Qed.
   (* the start of the first piece and the end of the last piece do not matter *)
   Lemma chained_replace_first a a' r : ep a = ep a' -> chained (a :: r) -> chained (a' :: r).
   Proof. intros E H. destruct r as [|b r]; [exact I|]. destruct H as [J H]. split; [|exact H].
@@ -205,6 +218,7 @@ Section Cropped.
   Variables atol rtol : K.
 
   Local Notation main := (path_cropped_main N crop seq atol rtol).
+  Local Notation ASM := (assemble N crop).
   Local Notation LOC0 := (loc0 N seq atol rtol).
   Local Notation LOC1 := (loc1 N seq atol rtol).
   Local Notation k0 := (zero N).
@@ -266,21 +280,18 @@ Section Cropped.
       tail_of j1 t1 s1 tl -> ps = PC false j0 t0 k1 c0 :: (m1 ++ m2) ++ tl ->
       shape segs T0 T1 closed i0 t0 i1 t1 j0 j1 s0 s1 ps.
 
-  Lemma main_shape segs T0 T1 r0 r1 closed ps :
-    main segs T0 T1 r0 r1 closed = Ok ps ->
-    exists i0 t0 j0 i1 t1 j1 s0 s1,
-      LOC0 segs T0 r0 = Ok (i0, t0, j0) /\ LOC1 segs T1 r1 = Ok (i1, t1, j1) /\
+  Lemma assemble_shape segs T0 T1 closed i0 t0 j0 i1 t1 j1 ps :
+    ASM segs T0 T1 closed (i0, t0, j0) (i1, t1, j1) = Ok ps ->
+    exists s0 s1,
       nth_error segs j0 = Some s0 /\ nth_error segs j1 = Some s1 /\
       shape segs T0 T1 closed i0 t0 i1 t1 j0 j1 s0 s1 ps.
   Proof.
-    unfold path_cropped_main. intros H.
-    destruct (LOC1 segs T1 r1) as [[[i1 t1] j1]|] eqn:E1; cbn [rbind fst snd] in H; [|discriminate].
+    unfold assemble. cbn [fst snd]. intros H.
     unfold getseg at 1 in H.
     destruct (nth_error segs j1) as [s1|] eqn:Es1; cbn [rbind] in H; [|discriminate].
-    destruct (LOC0 segs T0 r0) as [[[i0 t0] j0]|] eqn:E0; cbn [rbind fst snd] in H; [|discriminate].
     unfold getseg at 1 in H.
     destruct (nth_error segs j0) as [s0|] eqn:Es0; cbn [rbind] in H; [|discriminate].
-    exists i0, t0, j0, i1, t1, j1, s0, s1. repeat (split; [reflexivity || assumption|]).
+    exists s0, s1. repeat (split; [reflexivity || assumption|]).
     destruct (ltb N T0 T1 && (i0 =? i1)%nat) eqn:Eb.
     - apply andb_prop in Eb. destruct Eb as [Elt Eeq]. apply Nat.eqb_eq in Eeq.
       destruct (crop s0 t0 t1) as [c|] eqn:Ec; cbn [rbind] in H; [|discriminate].
@@ -309,6 +320,32 @@ Section Cropped.
           rewrite app_nil_r. reflexivity.
   Qed.
 
+  (* the pinned code: locations by loc1, loc0, then the assembly *)
+  Lemma main_pinned segs T0 T1 r0 r1 closed ps :
+    main segs T0 T1 r0 r1 closed = Ok ps <->
+    exists l0 l1, LOC1 segs T1 r1 = Ok l1 /\ LOC0 segs T0 r0 = Ok l0 /\
+                  ASM segs T0 T1 closed l0 l1 = Ok ps.
+  Proof.
+    unfold path_cropped_main, plan_main, locs_v, loc0, loc1. split.
+    - intros H.
+      destruct (loc1_v N seq atol rtol false segs T1 r1) as [l1|]; cbn [rbind] in H; [|discriminate].
+      destruct (loc0_v N seq atol rtol false segs T0 r0) as [l0|]; cbn [rbind] in H; [|discriminate].
+      exists l0, l1. repeat split. exact H.
+    - intros (l0 & l1 & -> & -> & H). cbn [rbind run_plan]. exact H.
+  Qed.
+
+  Lemma main_shape segs T0 T1 r0 r1 closed ps :
+    main segs T0 T1 r0 r1 closed = Ok ps ->
+    exists i0 t0 j0 i1 t1 j1 s0 s1,
+      LOC0 segs T0 r0 = Ok (i0, t0, j0) /\ LOC1 segs T1 r1 = Ok (i1, t1, j1) /\
+      nth_error segs j0 = Some s0 /\ nth_error segs j1 = Some s1 /\
+      shape segs T0 T1 closed i0 t0 i1 t1 j0 j1 s0 s1 ps.
+  Proof.
+    intros H. apply main_pinned in H. destruct H as ([[i0 t0] j0] & [[i1 t1] j1] & L1 & L0 & H).
+    destruct (assemble_shape _ _ _ _ _ _ _ _ _ _ _ H) as (s0 & s1 & A & B & Sh).
+    exists i0, t0, j0, i1, t1, j1, s0, s1. repeat split; assumption.
+  Qed.
+
   (* ---------------- the top-level redirect ---------------- *)
   (* effective start parameter: T0 == 1 on a closed path is replaced by 0 *)
   Definition redirect (T0 T1 : K) (closed : res bool) : bool :=
@@ -323,13 +360,26 @@ Section Cropped.
     path_cropped N crop seq atol rtol segs T0 T1 r0 r1 closed = Ok ps ->
     main segs (eff_T0 T0 T1 closed) T1 (eff_r0 T0 T1 closed r0) r1 closed = Ok ps.
   Proof.
-    unfold path_cropped, eff_T0, eff_r0, redirect. intros H.
+    unfold path_cropped, path_cropped_v, crop_plan, path_cropped_main, eff_T0, eff_r0, redirect. intros H.
     destruct (negb (in01 N T0 && in01 N T1)); [discriminate|].
     destruct (eqb N T0 T1); [discriminate|].
     destruct (eqb N T0 k1 && eqb N T1 k0); [discriminate|].
+    cbn [andb] in H.
     destruct (eqb N T0 k1 && ltb N k0 T1 && ltb N T1 k1).
     - destruct closed as [[|]|]; cbn [rbind andb] in *; try discriminate; exact H.
     - cbn [andb]. exact H.
+  Qed.
+
+  (* every variant: the result is the assembly of the plan *)
+  Lemma cropped_v_plan ix hw tz segs T0 T1 r0 r1 closed ps :
+    path_cropped_v N crop seq atol rtol ix hw tz segs T0 T1 r0 r1 closed = Ok ps <->
+    exists T0' T1' l0 l1, crop_plan N seq atol rtol ix hw tz segs T0 T1 r0 r1 closed = Ok (T0', T1', l0, l1)
+                          /\ ASM segs T0' T1' closed l0 l1 = Ok ps.
+  Proof.
+    unfold path_cropped_v. split.
+    - intros H. destruct (crop_plan _ _ _ _ _ _ _ _ _ _ _ _ _) as [[[[T0' T1'] l0] l1]|]; cbn [rbind] in H; [|discriminate].
+      exists T0', T1', l0, l1. split; [reflexivity|exact H].
+    - intros (T0' & T1' & l0 & l1 & -> & H). exact H.
   Qed.
 
   (* ---------------- contracts and theorems ---------------- *)
@@ -346,9 +396,8 @@ Section Cropped.
   Proof. intros [[_ H]|[E _]] En; [exact H|congruence]. Qed.
 
   (* starts at seg_i0(t0), ends at seg_i1(t1) *)
-  Theorem cropped_ends segs T0 T1 r0 r1 closed ps i0 t0 j0 i1 t1 j1 s0 s1 d :
-    main segs T0 T1 r0 r1 closed = Ok ps ->
-    LOC0 segs T0 r0 = Ok (i0, t0, j0) -> LOC1 segs T1 r1 = Ok (i1, t1, j1) ->
+  Theorem cropped_ends_asm segs T0 T1 closed ps i0 t0 j0 i1 t1 j1 s0 s1 d :
+    ASM segs T0 T1 closed (i0, t0, j0) (i1, t1, j1) = Ok ps ->
     nth_error segs j0 = Some s0 -> nth_error segs j1 = Some s1 ->
     neqb N t1 k0 = true ->
     (* single-piece case (T0 < T1, i0 = i1): the piece is seg0.cropped(t0, t1) with seg0 = self[j0];
@@ -357,11 +406,10 @@ Section Cropped.
     ps <> [] /\ pt (hd d (piece_segs ps)) k0 = pt s0 t0 /\
     pt (last (piece_segs ps) d) k1 = pt s1 t1.
   Proof.
-    intros H L0 L1 N0 N1 En HSS.
+    intros H N0 N1 En HSS.
     assert (HS : forall c : S, ltb N T0 T1 = true -> i0 = i1 -> pt c k1 = pt s0 t1 -> pt c k1 = pt s1 t1)
       by (intros c A B E; rewrite E; apply HSS; assumption).
-    destruct (main_shape _ _ _ _ _ _ _ H) as (i0' & t0' & j0' & i1' & t1' & j1' & s0' & s1' & A & B & C & D & Sh).
-    rewrite L0 in A. rewrite L1 in B. inversion A; inversion B; subst i0' t0' j0' i1' t1' j1'.
+    destruct (assemble_shape _ _ _ _ _ _ _ _ _ _ _ H) as (s0' & s1' & C & D & Sh).
     rewrite N0 in C. rewrite N1 in D. inversion C; inversion D; subst s0' s1'.
     destruct Sh as [c Hlt Hi Hc ->|c0 mid tl _ _ Hc0 _ Ht ->|c0 m1 m2 tl _ _ _ Hc0 _ _ Ht ->].
     - (* single piece: cropped from seg0 = self[j0] with t_seg1; seg1 = self[j1] is an equal
@@ -383,6 +431,22 @@ Section Cropped.
       rewrite last_app_single. exact E1.
   Qed.
 
+  Theorem cropped_ends segs T0 T1 r0 r1 closed ps i0 t0 j0 i1 t1 j1 s0 s1 d :
+    main segs T0 T1 r0 r1 closed = Ok ps ->
+    LOC0 segs T0 r0 = Ok (i0, t0, j0) -> LOC1 segs T1 r1 = Ok (i1, t1, j1) ->
+    nth_error segs j0 = Some s0 -> nth_error segs j1 = Some s1 ->
+    neqb N t1 k0 = true ->
+    (* single-piece case (T0 < T1, i0 = i1): the piece is seg0.cropped(t0, t1) with seg0 = self[j0];
+       its end is seg1's point when seg0 and seg1 are the same object, or equal segments *)
+    (ltb N T0 T1 = true -> i0 = i1 -> pt s0 t1 = pt s1 t1) ->
+    ps <> [] /\ pt (hd d (piece_segs ps)) k0 = pt s0 t0 /\
+    pt (last (piece_segs ps) d) k1 = pt s1 t1.
+  Proof.
+    intros H L0 L1. apply main_pinned in H. destruct H as (l0 & l1 & A & B & H).
+    rewrite L0 in B. rewrite L1 in A. inversion A; inversion B; subst l0 l1.
+    revert H. apply cropped_ends_asm.
+  Qed.
+
   (* the start / end location is the T2t answer itself, or — when np.isclose
      hands over to the neighbouring segment — the same POINT provided the
      hand-over was exact (t = 1 resp. t = 0) and the two segments are joined;
@@ -394,7 +458,7 @@ Section Cropped.
     (isclose N atol rtol t k1 = true -> t = k1 /\ joined sp ep sk s0) ->
     pt s0 t0 = pt sk t.
   Proof.
-    unfold loc0. intros H E0 Nk N0 Hh. rewrite E0 in H. cbn [rbind fst snd] in H.
+    unfold loc0, loc0_v, py_index_v. intros H E0 Nk N0 Hh. rewrite E0 in H. cbn [rbind fst snd] in H.
     unfold zindex in H. destruct ((0 <=? k)%Z && (k <? Z.of_nat (length segs))%Z); cbn [rbind] in H;
       [|discriminate].
     destruct (py_index seq segs (Z.to_nat k)) as [j|]; [|discriminate].
@@ -409,7 +473,7 @@ Section Cropped.
     (isclose N atol rtol t k0 = true -> t = k0 /\ joined sp ep s1 sk) ->
     pt s1 t1 = pt sk t.
   Proof.
-    unfold loc1. intros H E1 Nk N1 Hh. rewrite E1 in H. cbn [rbind fst snd] in H.
+    unfold loc1, loc1_v, py_index_v. intros H E1 Nk N1 Hh. rewrite E1 in H. cbn [rbind fst snd] in H.
     unfold zindex in H. destruct ((0 <=? k)%Z && (k <? Z.of_nat (length segs))%Z); cbn [rbind] in H;
       [|discriminate].
     destruct (py_index seq segs (Z.to_nat k)) as [j|]; [|discriminate].
@@ -423,7 +487,7 @@ Section Cropped.
     LOC0 segs T0 (Ok (k, t)) = Ok (i0, t0, j0) ->
     py_index seq segs (Z.to_nat k) = Some (Z.to_nat k) -> j0 = i0.
   Proof.
-    unfold loc0. intros H Hidx. destruct (eqb N T0 k0).
+    unfold loc0, loc0_v, py_index_v. intros H Hidx. destruct (eqb N T0 k0).
     - destruct (length segs =? 0)%nat; inversion H; reflexivity.
     - cbn [rbind fst snd] in H. unfold zindex in H.
       destruct ((0 <=? k)%Z && (k <? Z.of_nat (length segs))%Z); cbn [rbind] in H; [|discriminate].
@@ -433,7 +497,7 @@ Section Cropped.
     LOC1 segs T1 (Ok (k, t)) = Ok (i1, t1, j1) ->
     py_index seq segs (Z.to_nat k) = Some (Z.to_nat k) -> j1 = i1.
   Proof.
-    unfold loc1. intros H Hidx. destruct (eqb N T1 k1).
+    unfold loc1, loc1_v, py_index_v. intros H Hidx. destruct (eqb N T1 k1).
     - destruct (length segs =? 0)%nat; inversion H; reflexivity.
     - cbn [rbind fst snd] in H. unfold zindex in H.
       destruct ((0 <=? k)%Z && (k <? Z.of_nat (length segs))%Z); cbn [rbind] in H; [|discriminate].
@@ -441,44 +505,41 @@ Section Cropped.
   Qed.
   (* the shortcuts T0 == 0 / T1 == 1 *)
   Lemma loc0_zero segs T0 r0 : eqb N T0 k0 = true -> segs <> [] -> LOC0 segs T0 r0 = Ok (0%nat, k0, 0%nat).
-  Proof. unfold loc0. intros -> H. destruct segs; [congruence|reflexivity]. Qed.
+  Proof. unfold loc0, loc0_v. intros -> H. destruct segs; [congruence|reflexivity]. Qed.
   Lemma loc1_one segs T1 r1 : eqb N T1 k1 = true -> segs <> [] ->
     LOC1 segs T1 r1 = Ok ((length segs - 1)%nat, k1, (length segs - 1)%nat).
-  Proof. unfold loc1. intros -> H. destruct segs; [congruence|reflexivity]. Qed.
+  Proof. unfold loc1, loc1_v. intros -> H. destruct segs; [congruence|reflexivity]. Qed.
 
   (* consecutive pieces joined *)
-  Theorem cropped_joined segs T0 T1 r0 r1 closed ps i0 t0 i1 t1 d :
+  Theorem cropped_joined_asm segs T0 T1 closed ps i0 t0 i1 t1 d :
     chained sp ep segs ->
     (closed = Ok true -> joined sp ep (last segs d) (hd d segs)) ->
-    main segs T0 T1 r0 r1 closed = Ok ps ->
-    LOC0 segs T0 r0 = Ok (i0, t0, i0) -> LOC1 segs T1 r1 = Ok (i1, t1, i1) ->
-    neqb N t1 k0 = true ->
+    ASM segs T0 T1 closed (i0, t0, i0) (i1, t1, i1) = Ok ps ->
     (ltb N T1 T0 = false -> (i0 < i1)%nat \/ (ltb N T0 T1 = true /\ i0 = i1)) ->
     chained sp ep (piece_segs ps).
   Proof.
-    intros Hch Hcl H L0 L1 En Hord.
-    destruct (main_shape _ _ _ _ _ _ _ H) as (i0' & t0' & j0' & i1' & t1' & j1' & s0 & s1 & A & B & N0 & N1 & Sh).
-    rewrite L0 in A. rewrite L1 in B. inversion A; inversion B; subst i0' t0' j0' i1' t1' j1'.
+    intros Hch Hcl H Hord.
+    destruct (assemble_shape _ _ _ _ _ _ _ _ _ _ _ H) as (s0 & s1 & N0 & N1 & Sh).
     destruct Sh as [c _ _ _ ->|c0 mid tl Hb Hw Hc0 Hm Ht ->|c0 m1 m2 tl _ _ Hc Hc0 Hm1 Hm2 Ht ->].
     - exact I.
-    - destruct (tail_cases _ _ _ _ Ht En) as (c1 & Hc1 & ->).
-      destruct (Hord Hw) as [Hlt|[Hlt Heq]].
+    - destruct (Hord Hw) as [Hlt|[Hlt Heq]].
       2:{ subst i1. rewrite Hlt, Nat.eqb_refl in Hb. discriminate. }
       destruct (origs_ok _ _ _ _ Hm) as (Am & _ & _).
-      destruct (crop_ends _ _ _ _ Hc0) as [_ E0]. destruct (crop_ends _ _ _ _ Hc1) as [E1 _].
-      cbn [piece_segs map p_seg]. rewrite map_app. cbn [map p_seg]. fold (piece_segs mid).
-      rewrite Am.
-      assert (Hs : chained sp ep (s0 :: slice segs (i0 + 1) i1 ++ [s1])).
-      { replace (i0 + 1)%nat with (Datatypes.S i0) by lia.
+      destruct (crop_ends _ _ _ _ Hc0) as [_ E0].
+      assert (Hs : chained sp ep ((s0 :: slice segs (i0 + 1) i1) ++ [s1])).
+      { replace (i0 + 1)%nat with (Datatypes.S i0) by lia. cbn [app].
         rewrite <- (slice_incl segs i0 i1 s0 s1 Hlt N0 N1). apply chained_slice, Hch. }
+      cbn [piece_segs map p_seg]. rewrite map_app. fold (piece_segs mid). rewrite Am.
       apply (chained_replace_first sp ep s0 c0); [symmetry; exact E0|].
-      change (s0 :: slice segs (i0 + 1) i1 ++ [c1]) with ((s0 :: slice segs (i0 + 1) i1) ++ [c1]).
-      apply (chained_replace_last sp ep _ s1 c1); [symmetry; exact E1|]. exact Hs.
-    - destruct (tail_cases _ _ _ _ Ht En) as (c1 & Hc1 & ->).
-      destruct (origs_ok _ _ _ _ Hm1) as (A1 & _ & _).
+      destruct Ht as [[_ (c1 & Hc1 & ->)]|[_ ->]].
+      + destruct (crop_ends _ _ _ _ Hc1) as [E1 _]. cbn [map p_seg].
+        change (s0 :: slice segs (i0 + 1) i1 ++ [c1]) with ((s0 :: slice segs (i0 + 1) i1) ++ [c1]).
+        apply (chained_replace_last sp ep _ s1 c1); [symmetry; exact E1|]. exact Hs.
+      + cbn [map]. rewrite app_nil_r. apply chained_app_l in Hs. exact Hs.
+    - destruct (origs_ok _ _ _ _ Hm1) as (A1 & _ & _).
       destruct (origs_ok _ _ _ _ Hm2) as (A2 & _ & _).
-      destruct (crop_ends _ _ _ _ Hc0) as [_ E0]. destruct (crop_ends _ _ _ _ Hc1) as [E1 _].
-      cbn [piece_segs map p_seg]. rewrite !map_app. cbn [map p_seg].
+      destruct (crop_ends _ _ _ _ Hc0) as [_ E0].
+      cbn [piece_segs map p_seg]. rewrite !map_app.
       fold (piece_segs m1). fold (piece_segs m2). rewrite A1, A2.
       replace (i0 + 1)%nat with (Datatypes.S i0) by lia.
       rewrite slice_full_tail, slice_0.
@@ -493,19 +554,34 @@ Section Cropped.
           apply Hcl, Hc. }
       set (X := skipn (Datatypes.S i0) segs) in *. set (Y := firstn i1 segs) in *.
       assert (Hs' : chained sp ep (((s0 :: X) ++ Y) ++ [s1])) by (rewrite <- app_assoc; exact Hs).
-      apply (chained_replace_last sp ep _ s1 c1) in Hs'; [|symmetry; exact E1].
       apply (chained_replace_first sp ep s0 c0); [symmetry; exact E0|].
-      exact Hs'.
+      destruct Ht as [[_ (c1 & Hc1 & ->)]|[_ ->]].
+      + destruct (crop_ends _ _ _ _ Hc1) as [E1 _]. cbn [map p_seg].
+        apply (chained_replace_last sp ep _ s1 c1) in Hs'; [|symmetry; exact E1]. exact Hs'.
+      + cbn [map]. rewrite app_nil_r. apply chained_app_l in Hs'. exact Hs'.
+  Qed.
+
+  Theorem cropped_joined segs T0 T1 r0 r1 closed ps i0 t0 i1 t1 d :
+    chained sp ep segs ->
+    (closed = Ok true -> joined sp ep (last segs d) (hd d segs)) ->
+    main segs T0 T1 r0 r1 closed = Ok ps ->
+    LOC0 segs T0 r0 = Ok (i0, t0, i0) -> LOC1 segs T1 r1 = Ok (i1, t1, i1) ->
+    (ltb N T1 T0 = false -> (i0 < i1)%nat \/ (ltb N T0 T1 = true /\ i0 = i1)) ->
+    chained sp ep (piece_segs ps).
+  Proof.
+    intros Hch Hcl H L0 L1. apply main_pinned in H. destruct H as (l0 & l1 & A & B & H).
+    rewrite L0 in B. rewrite L1 in A. inversion A; inversion B; subst l0 l1.
+    revert Hch Hcl H. apply cropped_joined_asm.
   Qed.
 
   (* which pieces are originals: everything except the first and the last *)
-  Theorem cropped_middle_originals segs T0 T1 r0 r1 closed ps :
-    main segs T0 T1 r0 r1 closed = Ok ps ->
+  Theorem cropped_middle_originals_asm segs T0 T1 closed i0 t0 j0 i1 t1 j1 ps :
+    ASM segs T0 T1 closed (i0, t0, j0) (i1, t1, j1) = Ok ps ->
     forall j p, nth_error ps j = Some p -> (0 < j)%nat -> (Datatypes.S j < length ps)%nat ->
     p_orig p = true /\ nth_error segs (p_idx p) = Some (p_seg p).
   Proof.
     intros H j p Hj H0 Hlast.
-    destruct (main_shape _ _ _ _ _ _ _ H) as (i0 & t0 & j0 & i1 & t1 & j1 & s0 & s1 & _ & _ & _ & _ & Sh).
+    destruct (assemble_shape _ _ _ _ _ _ _ _ _ _ _ H) as (s0 & s1 & _ & _ & Sh).
     assert (Gen : forall (x : piece S K) mid tl, (length tl <= 1)%nat ->
               (forall q, In q mid -> p_orig q = true /\ nth_error segs (p_idx q) = Some (p_seg q)) ->
               nth_error (x :: mid ++ tl) j = Some p -> (Datatypes.S j < length (x :: mid ++ tl))%nat ->
@@ -524,6 +600,192 @@ Section Cropped.
       destruct (origs_ok _ _ _ _ Hm2) as (_ & _ & C2).
       eapply (Gen _ (m1 ++ m2) tl); eauto.
       intros q Hq. apply in_app_or in Hq. destruct Hq; [apply C1|apply C2]; assumption.
+  Qed.
+
+  Theorem cropped_middle_originals segs T0 T1 r0 r1 closed ps :
+    main segs T0 T1 r0 r1 closed = Ok ps ->
+    forall j p, nth_error ps j = Some p -> (0 < j)%nat -> (Datatypes.S j < length ps)%nat ->
+    p_orig p = true /\ nth_error segs (p_idx p) = Some (p_seg p).
+  Proof.
+    intros H. apply main_pinned in H. destruct H as ([[i0 t0] j0] & [[i1 t1] j1] & _ & _ & H).
+    revert H. apply cropped_middle_originals_asm.
+  Qed.
+
+  (* ---------------- the repaired variants ---------------- *)
+  Local Notation LOCt := (@loc K).
+  Definition diag (l : LOCt) : Prop := snd l = fst (fst l).
+
+  Lemma fix_hand_inv (Pl : LOCt -> Prop) (segs : list S) T0 T1 r0 r1 closed l0 l1 a b :
+    Pl l0 -> Pl l1 -> (forall x, Pl (0%nat, x, 0%nat)) -> (forall kt, Pl (raw_loc kt)) ->
+    fix_hand N atol rtol segs T0 T1 r0 r1 closed l0 l1 = Ok (Locs a b) -> Pl a /\ Pl b.
+  Proof.
+    intros P0 P1 Pz Pr H. unfold fix_hand in H.
+    match type of H with rbind ?X _ = _ => set (X1 := X) in H end.
+    assert (HX1 : forall l1', X1 = Ok l1' -> Pl l1').
+    { unfold X1. destruct (eqb N T1 k1); [inversion 1; subst; auto|].
+      destruct r1 as [kt|]; cbn [rbind]; [|discriminate].
+      destruct ((fst kt =? 0)%Z && isclose N atol rtol (snd kt) k0); inversion 1; subst; auto. }
+    destruct X1 as [l1'|]; cbn [rbind] in H; [|discriminate]. specialize (HX1 _ eq_refl).
+    match type of H with rbind ?X _ = _ => set (X2 := X) in H end.
+    assert (HX2 : forall x y, X2 = Ok (Locs x y) -> Pl x /\ Pl y).
+    { unfold X2. destruct (eqb N T0 k0); [inversion 1; subst; auto|].
+      destruct r0 as [kt|]; cbn [rbind]; [|discriminate].
+      destruct ((fst kt =? Z.of_nat (length segs) - 1)%Z && isclose N atol rtol (snd kt) k1).
+      - destruct (ltb N T0 T1 || eqb N (snd (fst l1')) k0); [inversion 1; subst; auto|].
+        destruct closed as [[|]|]; cbn [rbind]; intros x y E; inversion E; subst; auto.
+      - inversion 1; subst; auto. }
+    destruct X2 as [[x y|]|]; cbn [rbind] in H; try discriminate.
+    destruct (HX2 _ _ eq_refl) as [Px Py].
+    destruct (ltb N T0 T1 && (fst (fst y) <? fst (fst x))%nat).
+    - destruct r0 as [kt0|]; cbn [rbind] in H; [|discriminate].
+      destruct r1 as [kt1|]; cbn [rbind] in H; [|discriminate].
+      inversion H; subst; auto.
+    - inversion H; subst; auto.
+  Qed.
+
+  Lemma loc0_v_diag segs T0 r0 l : loc0_v N seq atol rtol true segs T0 r0 = Ok l -> diag l.
+  Proof.
+    unfold loc0_v, py_index_v, diag. destruct (eqb N T0 k0).
+    - destruct (length segs =? 0)%nat; inversion 1; reflexivity.
+    - destruct r0 as [kt|]; cbn [rbind]; [|discriminate].
+      destruct (zindex segs (fst kt)) as [k|]; cbn [rbind]; [|discriminate].
+      destruct (isclose N atol rtol (snd kt) k1); inversion 1; reflexivity.
+  Qed.
+  Lemma loc1_v_diag segs T1 r1 l : loc1_v N seq atol rtol true segs T1 r1 = Ok l -> diag l.
+  Proof.
+    unfold loc1_v, py_index_v, diag. destruct (eqb N T1 k1).
+    - destruct (length segs =? 0)%nat; inversion 1; reflexivity.
+    - destruct r1 as [kt|]; cbn [rbind]; [|discriminate].
+      destruct (zindex segs (fst kt)) as [k|]; cbn [rbind]; [|discriminate].
+      destruct (isclose N atol rtol (snd kt) k0); inversion 1; reflexivity.
+  Qed.
+
+  Lemma locs_v_diag hw segs T0 T1 r0 r1 closed a b :
+    locs_v N seq atol rtol true hw segs T0 T1 r0 r1 closed = Ok (Locs a b) -> diag a /\ diag b.
+  Proof.
+    unfold locs_v. intros H.
+    destruct (loc1_v N seq atol rtol true segs T1 r1) as [l1|] eqn:E1; cbn [rbind] in H; [|discriminate].
+    destruct (loc0_v N seq atol rtol true segs T0 r0) as [l0|] eqn:E0; cbn [rbind] in H; [|discriminate].
+    apply loc1_v_diag in E1. apply loc0_v_diag in E0.
+    destruct hw.
+    - apply (fix_hand_inv diag segs T0 T1 r0 r1 closed l0 l1 a b E0 E1);
+        [intros; reflexivity|intros; reflexivity|exact H].
+    - inversion H; subst; auto.
+  Qed.
+
+  (* a crop plan is always the plan of the main part for some arguments *)
+  Lemma crop_plan_main ix hw tz segs T0 T1 r0 r1 closed p :
+    crop_plan N seq atol rtol ix hw tz segs T0 T1 r0 r1 closed = Ok p ->
+    exists T0a T1a r0a r1a, plan_main N seq atol rtol ix hw segs T0a T1a r0a r1a closed = Ok p.
+  Proof.
+    unfold crop_plan. intros H.
+    destruct (negb (in01 N T0 && in01 N T1)); [discriminate|].
+    destruct (eqb N T0 T1); [discriminate|].
+    destruct (eqb N T0 k1 && eqb N T1 k0); [discriminate|].
+    assert (R : forall q, (if tz && eqb N T1 k0 && ltb N k0 T0 && ltb N T0 k1
+             then rbind closed (fun cl : bool =>
+                    if cl then plan_main N seq atol rtol ix hw segs T0 k1 r0
+                                         (Ok ((Z.of_nat (length segs) - 1)%Z, k1)) closed
+                    else plan_main N seq atol rtol ix hw segs T0 T1 r0 r1 closed)
+             else plan_main N seq atol rtol ix hw segs T0 T1 r0 r1 closed) = Ok q ->
+            exists T0a T1a r0a r1a, plan_main N seq atol rtol ix hw segs T0a T1a r0a r1a closed = Ok q).
+    { intros q. destruct (tz && eqb N T1 k0 && ltb N k0 T0 && ltb N T0 k1).
+      - destruct closed as [[|]|]; cbn [rbind]; intros E; try discriminate; eauto.
+      - eauto. }
+    destruct (eqb N T0 k1 && ltb N k0 T1 && ltb N T1 k1).
+    - destruct closed as [[|]|]; cbn [rbind] in H; try discriminate.
+      + do 4 eexists. exact H.
+      + apply R. exact H.
+    - apply R. exact H.
+  Qed.
+
+  (* ix: the object whose cropped() is called is the one at the index used for the ranges —
+     the duplicate-segment hypothesis of the theorems above is discharged *)
+  Theorem plan_index_identity hw segs T0 T1 r0 r1 closed T0' T1' l0 l1 :
+    plan_main N seq atol rtol true hw segs T0 T1 r0 r1 closed = Ok (T0', T1', l0, l1) ->
+    diag l0 /\ diag l1.
+  Proof.
+    unfold plan_main. intros H.
+    destruct (locs_v N seq atol rtol true hw segs T0 T1 r0 r1 closed) as [[a b|]|] eqn:E;
+      cbn [rbind] in H; try discriminate.
+    - inversion H; subst. eapply locs_v_diag; eauto.
+    - destruct (locs_v N seq atol rtol true hw segs k0 T1 (Ok (0%Z, k0)) r1 closed) as [[a b|]|] eqn:E';
+        cbn [rbind] in H; try discriminate.
+      inversion H; subst. eapply locs_v_diag; eauto.
+  Qed.
+
+  (* hw: in the forward case the start location never lies beyond the end location
+     (given that T2t is monotone: T0 < T1 implies seg0_idx <= seg1_idx, C05) *)
+  Definition t2t_mono (T0 T1 : K) (r0 r1 : res (Z * K)) : Prop :=
+    forall kt0 kt1, r0 = Ok kt0 -> r1 = Ok kt1 -> ltb N T0 T1 = true ->
+                    (Z.to_nat (fst kt0) <= Z.to_nat (fst kt1))%nat.
+  Lemma fix_hand_order (segs : list S) T0 T1 r0 r1 closed l0 l1 a b :
+    t2t_mono T0 T1 r0 r1 ->
+    fix_hand N atol rtol segs T0 T1 r0 r1 closed l0 l1 = Ok (Locs a b) ->
+    ltb N T0 T1 = true -> (fst (fst a) <= fst (fst b))%nat.
+  Proof.
+    intros Hm H Hlt. unfold fix_hand in H.
+    match type of H with rbind ?X _ = _ => destruct X as [l1'|] end; cbn [rbind] in H; [|discriminate].
+    match type of H with rbind ?X _ = _ => destruct X as [[x y|]|] end; cbn [rbind] in H; try discriminate.
+    rewrite Hlt in H. cbn [andb] in H.
+    destruct (fst (fst y) <? fst (fst x))%nat eqn:E.
+    - destruct r0 as [kt0|]; cbn [rbind] in H; [|discriminate].
+      destruct r1 as [kt1|]; cbn [rbind] in H; [|discriminate].
+      inversion H; subst. unfold raw_loc. cbn [fst snd]. apply (Hm kt0 kt1); auto.
+    - inversion H; subst. apply Nat.ltb_ge in E. exact E.
+  Qed.
+  Theorem plan_forward_order ix segs T0 T1 r0 r1 closed T0' T1' l0 l1 :
+    t2t_mono T0 T1 r0 r1 ->
+    plan_main N seq atol rtol ix true segs T0 T1 r0 r1 closed = Ok (T0', T1', l0, l1) ->
+    ltb N T0' T1' = true -> (fst (fst l0) <= fst (fst l1))%nat.
+  Proof.
+    unfold plan_main, locs_v. intros Hm H Hlt.
+    destruct (loc1_v N seq atol rtol ix segs T1 r1) as [m1|]; cbn [rbind] in H; [|discriminate].
+    destruct (loc0_v N seq atol rtol ix segs T0 r0) as [m0|]; cbn [rbind] in H; [|discriminate].
+    destruct (fix_hand N atol rtol segs T0 T1 r0 r1 closed m0 m1) as [[a b|]|] eqn:E;
+      cbn [rbind] in H; try discriminate.
+    - inversion H; subst. eapply fix_hand_order; eauto.
+    - destruct (loc0_v N seq atol rtol ix segs k0 (Ok (0%Z, k0))) as [m0'|]; cbn [rbind] in H; [|discriminate].
+      destruct (fix_hand N atol rtol segs k0 T1 (Ok (0%Z, k0)) r1 closed m0' m1) as [[a b|]|] eqn:E';
+        cbn [rbind] in H; try discriminate.
+      inversion H; subst.
+      apply (fix_hand_order segs k0 T1' (Ok (0%Z, k0)) r1 closed m0' m1 l0 l1); [|exact E'|exact Hlt].
+      intros kt0 kt1 E0 _ _. inversion E0; subst. cbn. apply Nat.le_0_l.
+  Qed.
+
+  (* tz: on a closed path cropped(T0, 0) IS cropped(T0, 1) *)
+  Theorem plan_T1_zero ix hw segs T0 r0 r1 :
+    in01 N T0 = true -> in01 N k0 = true -> eqb N T0 k0 = false -> eqb N T0 k1 = false ->
+    eqb N k0 k0 = true -> ltb N k0 T0 = true -> ltb N T0 k1 = true ->
+    crop_plan N seq atol rtol ix hw true segs T0 k0 r0 r1 (Ok true)
+    = plan_main N seq atol rtol ix hw segs T0 k1 r0 (Ok ((Z.of_nat (length segs) - 1)%Z, k1)) (Ok true).
+  Proof.
+    intros A B C D E F G. unfold crop_plan. rewrite A, B, C, D, E, F, G. cbn. reflexivity.
+  Qed.
+
+  (* the repaired code (ix, hw): consecutive pieces are joined for EVERY crop of a continuous
+     path — the duplicate-segment and hand-over hypotheses of cropped_joined are discharged
+     (T2t monotone, C05; the order on K total on the two parameters) *)
+  Theorem cropped_joined_repaired tz segs T0 T1 r0 r1 closed ps d :
+    chained sp ep segs ->
+    (closed = Ok true -> joined sp ep (last segs d) (hd d segs)) ->
+    (forall T0a T1a r0a r1a, t2t_mono T0a T1a r0a r1a) ->
+    (forall a b : K, ltb N b a = false -> eqb N a b = false -> ltb N a b = true) ->
+    (forall p, crop_plan N seq atol rtol true true tz segs T0 T1 r0 r1 closed = Ok p ->
+               eqb N (fst (fst (fst p))) (snd (fst (fst p))) = false) ->
+    path_cropped_v N crop seq atol rtol true true tz segs T0 T1 r0 r1 closed = Ok ps ->
+    chained sp ep (piece_segs ps).
+  Proof.
+    intros Hch Hcl Hm Htot Hne H. apply cropped_v_plan in H.
+    destruct H as (T0' & T1' & [[i0 t0] j0] & [[i1 t1] j1] & Hp & H).
+    specialize (Hne _ Hp). cbn [fst snd] in Hne.
+    destruct (crop_plan_main _ _ _ _ _ _ _ _ _ _ Hp) as (T0a & T1a & r0a & r1a & Hpm).
+    destruct (plan_index_identity _ _ _ _ _ _ _ _ _ _ _ Hpm) as [D0 D1].
+    unfold diag in D0, D1. cbn [fst snd] in D0, D1. subst j0 j1.
+    pose proof (plan_forward_order true _ _ _ _ _ _ _ _ _ _ (Hm _ _ _ _) Hpm) as Ho. cbn [fst snd] in Ho.
+    apply (cropped_joined_asm segs T0' T1' closed ps i0 t0 i1 t1 d Hch Hcl H).
+    intros Hw. specialize (Ho (Htot _ _ Hw Hne)).
+    destruct (Nat.eq_dec i0 i1) as [E|E]; [right; split; [apply Htot; assumption|exact E]|left; lia].
   Qed.
 
   (* ---------------- length ---------------- *)
@@ -563,17 +825,15 @@ Section Cropped.
   (* T0 < T1: one piece, or first piece + whole segments + last piece: the sum
      of the piece lengths is what Path.length(T0, T1) computes from the same
      (index, t) pairs *)
-  Theorem cropped_length_forward segs T0 T1 r0 r1 closed ps i0 t0 i1 t1 s0 s1 :
-    main segs T0 T1 r0 r1 closed = Ok ps ->
-    LOC0 segs T0 r0 = Ok (i0, t0, i0) -> LOC1 segs T1 r1 = Ok (i1, t1, i1) ->
+  Theorem cropped_length_forward_asm segs T0 T1 closed ps i0 t0 i1 t1 s0 s1 :
+    ASM segs T0 T1 closed (i0, t0, i0) (i1, t1, i1) = Ok ps ->
     nth_error segs i0 = Some s0 -> nth_error segs i1 = Some s1 ->
     neqb N t1 k0 = true -> ltb N T1 T0 = false ->
     ((i0 < i1)%nat \/ (ltb N T0 T1 = true /\ i0 = i1)) ->
     lsum (map len (piece_segs ps)) = path_length_loc segs i0 t0 i1 t1 s0 s1.
   Proof.
-    intros H L0 L1 N0 N1 En Hw Hord.
-    destruct (main_shape _ _ _ _ _ _ _ H) as (i0' & t0' & j0' & i1' & t1' & j1' & s0' & s1' & A & B & C & D & Sh).
-    rewrite L0 in A. rewrite L1 in B. inversion A; inversion B; subst i0' t0' j0' i1' t1' j1'.
+    intros H N0 N1 En Hw Hord.
+    destruct (assemble_shape _ _ _ _ _ _ _ _ _ _ _ H) as (s0' & s1' & C & D & Sh).
     rewrite N0 in C. rewrite N1 in D. inversion C; inversion D; subst s0' s1'.
     unfold path_length_loc.
     destruct Sh as [c Hlt Hi Hc ->|c0 mid tl Hb _ Hc0 Hm Ht ->|c0 m1 m2 tl _ Hw' _ _ _ _ _ _].
@@ -590,6 +850,19 @@ Section Cropped.
     - congruence.
   Qed.
 
+  Theorem cropped_length_forward segs T0 T1 r0 r1 closed ps i0 t0 i1 t1 s0 s1 :
+    main segs T0 T1 r0 r1 closed = Ok ps ->
+    LOC0 segs T0 r0 = Ok (i0, t0, i0) -> LOC1 segs T1 r1 = Ok (i1, t1, i1) ->
+    nth_error segs i0 = Some s0 -> nth_error segs i1 = Some s1 ->
+    neqb N t1 k0 = true -> ltb N T1 T0 = false ->
+    ((i0 < i1)%nat \/ (ltb N T0 T1 = true /\ i0 = i1)) ->
+    lsum (map len (piece_segs ps)) = path_length_loc segs i0 t0 i1 t1 s0 s1.
+  Proof.
+    intros H L0 L1. apply main_pinned in H. destruct H as (l0 & l1 & A & B & H).
+    rewrite L0 in B. rewrite L1 in A. inversion A; inversion B; subst l0 l1.
+    revert H. apply cropped_length_forward_asm.
+  Qed.
+
   Lemma skipn_snoc_last (segs : list S) a sl : (a <= length segs - 1)%nat ->
     nth_error segs (length segs - 1) = Some sl ->
     skipn a segs = slice segs a (length segs - 1) ++ [sl].
@@ -603,9 +876,8 @@ Section Cropped.
   Qed.
 
   (* T1 < T0 on a closed path: length(T0, 1) + length(0, T1) *)
-  Theorem cropped_length_wrap segs T0 T1 r0 r1 closed ps i0 t0 i1 t1 s0 s1 sf sl :
-    main segs T0 T1 r0 r1 closed = Ok ps ->
-    LOC0 segs T0 r0 = Ok (i0, t0, i0) -> LOC1 segs T1 r1 = Ok (i1, t1, i1) ->
+  Theorem cropped_length_wrap_asm segs T0 T1 closed ps i0 t0 i1 t1 s0 s1 sf sl :
+    ASM segs T0 T1 closed (i0, t0, i0) (i1, t1, i1) = Ok ps ->
     nth_error segs i0 = Some s0 -> nth_error segs i1 = Some s1 ->
     nth_error segs 0 = Some sf -> nth_error segs (length segs - 1) = Some sl ->
     neqb N t1 k0 = true -> ltb N T1 T0 = true -> ltb N T0 T1 && (i0 =? i1)%nat = false ->
@@ -613,9 +885,8 @@ Section Cropped.
     = ladd (path_length_loc segs i0 t0 (length segs - 1) k1 s0 sl)
            (path_length_loc segs 0 k0 i1 t1 sf s1).
   Proof.
-    intros H L0 L1 N0 N1 Nf Nl En Hw Hb.
-    destruct (main_shape _ _ _ _ _ _ _ H) as (i0' & t0' & j0' & i1' & t1' & j1' & s0' & s1' & A & B & C & D & Sh).
-    rewrite L0 in A. rewrite L1 in B. inversion A; inversion B; subst i0' t0' j0' i1' t1' j1'.
+    intros H N0 N1 Nf Nl En Hw Hb.
+    destruct (assemble_shape _ _ _ _ _ _ _ _ _ _ _ H) as (s0' & s1' & C & D & Sh).
     rewrite N0 in C. rewrite N1 in D. inversion C; inversion D; subst s0' s1'.
     destruct Sh as [c Hlt Hi _ _|c0 mid tl _ Hw' _ _ _ _|c0 m1 m2 tl _ _ _ Hc0 Hm1 Hm2 Ht ->].
     - subst i1. rewrite Hlt, Nat.eqb_refl in Hb. discriminate.
@@ -651,5 +922,20 @@ Section Cropped.
       rewrite <- P1, <- P2.
       rewrite <- (ladd_assoc a0 M1 (ladd M2 b)). f_equal.
       symmetry. apply ladd_assoc.
+  Qed.
+
+  Theorem cropped_length_wrap segs T0 T1 r0 r1 closed ps i0 t0 i1 t1 s0 s1 sf sl :
+    main segs T0 T1 r0 r1 closed = Ok ps ->
+    LOC0 segs T0 r0 = Ok (i0, t0, i0) -> LOC1 segs T1 r1 = Ok (i1, t1, i1) ->
+    nth_error segs i0 = Some s0 -> nth_error segs i1 = Some s1 ->
+    nth_error segs 0 = Some sf -> nth_error segs (length segs - 1) = Some sl ->
+    neqb N t1 k0 = true -> ltb N T1 T0 = true -> ltb N T0 T1 && (i0 =? i1)%nat = false ->
+    lsum (map len (piece_segs ps))
+    = ladd (path_length_loc segs i0 t0 (length segs - 1) k1 s0 sl)
+           (path_length_loc segs 0 k0 i1 t1 sf s1).
+  Proof.
+    intros H L0 L1. apply main_pinned in H. destruct H as (l0 & l1 & A & B & H).
+    rewrite L0 in B. rewrite L1 in A. inversion A; inversion B; subst l0 l1.
+    revert H. apply cropped_length_wrap_asm.
   Qed.
 End Cropped.
